@@ -445,7 +445,7 @@ func main() {
 			}
 		}
 		// the honest members of such a group can still produce an accepted quorum (non-vacuity)
-		if len(honest)+1-len(rogues)+boolInt(!isRogue[0]) >= 0 {
+		{
 			S := map[int]bool{}
 			if !isRogue[0] {
 				S[0] = true
@@ -880,13 +880,6 @@ func main() {
 		}
 	})
 	r.Finish()
-}
-
-func boolInt(b bool) int {
-	if b {
-		return 1
-	}
-	return 0
 }
 
 func abbreviate(s string) string {
